@@ -14,7 +14,7 @@ def rp(rng, lo, hi):
 
 def groups(tier, rng):
     """(name, lines, must_be_equal)"""
-    n = 60 if tier == 'thorough' else 6
+    n = 1000 if tier == 'thorough' else 160     # a leak on a rare secret event (a few % of seeds) needs this many draws to be seen
     G = []
     for s in fam.SETS:
         G.append((f'dudect_keygen_sign_with_rng ML-DSA-{s}: all RNG outputs', [f"t.dudect {s} 6d7367 {bytes(rng.randrange(256) for _ in range(64)).hex()}" for _ in range(n)]
